@@ -683,3 +683,95 @@ Theorem trailing_bytes_refuted_before_fix :
   (exists r, new_request_from_http pinned toy_parse e = Accept r) /\
   new_request_from_http fixed toy_parse e = Reject 400.
 Proof. vm_compute. repeat split; eauto. Qed.
+
+(** ** the two struct decoders agree outside two corner cases
+
+    encoding/json (HTTP body, with the extensions member) and jsoniter (socket payload, without)
+    read the same (query, variables, operationName) from the same JSON object, provided no number
+    is outside the float64 range and "query" / "operationName" are not repeated (the libraries
+    differ on [null] after an earlier value, and on out-of-range numbers in members that are not
+    read). *)
+Lemma has_member_cons name k v r :
+  has_member name ((k, v) :: r) = key_is name k || has_member name r.
+Proof. reflexivity. Qed.
+
+Lemma df_std_jsi kvs : forall b1 b2,
+  forallb (fun kv => negb (has_range (snd kv))) kvs = true ->
+  single_string_members kvs = true ->
+  body_op b1 = body_op b2 ->
+  (has_member k_query kvs = true -> b_query b1 = []) ->
+  (has_member k_opname kvs = true -> b_opname b1 = []) ->
+  forall r1, decode_fields StdJson true kvs b1 = Some r1 ->
+  exists r2, decode_fields Jsoniter false kvs b2 = Some r2 /\ body_op r1 = body_op r2.
+Proof.
+  induction kvs as [|[k v] r IH]; intros b1 b2 NR SG EQ Hq Hn r1 D.
+  - cbn in D. injection D as <-. exists b2. split; [reflexivity|exact EQ].
+  - cbn [forallb snd] in NR. apply andb_true_iff in NR as [NRv NRr]. apply negb_true_iff in NRv.
+    cbn [single_string_members] in SG. apply andb_true_iff in SG as [SG SGr]. apply andb_true_iff in SG as [SGq SGn].
+    apply negb_true_iff in SGq. apply negb_true_iff in SGn.
+    rewrite has_member_cons in Hq, Hn.
+    unfold body_op in EQ. injection EQ as Eq1 Eq2 Eq3.
+    cbn [decode_fields] in D |- *.
+    destruct (key_is k_query k) eqn:Kq.
+    { cbn [andb orb] in *.
+      assert (Hn' : has_member k_opname r = true -> b_opname b1 = []) by (intro H; apply Hn; rewrite H; apply orb_true_r).
+      destruct v; cbn [set_string] in D |- *; try discriminate.
+      - (* null: encoding/json keeps the current value, which is still empty *)
+        rewrite (Hq eq_refl) in D.
+        refine (IH _ _ NRr SGr _ _ _ _ D); cbn [b_query b_opname b_vars];
+          [unfold body_op; cbn; congruence | reflexivity | exact Hn'].
+      - refine (IH _ _ NRr SGr _ _ _ _ D); cbn [b_query b_opname b_vars];
+          [unfold body_op; cbn; congruence | rewrite SGq; discriminate | exact Hn']. }
+    destruct (key_is k_opname k) eqn:Ko.
+    { cbn [andb orb] in *.
+      destruct v; cbn [set_string] in D |- *; try discriminate.
+      - rewrite (Hn eq_refl) in D.
+        refine (IH _ _ NRr SGr _ _ _ _ D); cbn [b_query b_opname b_vars];
+          [unfold body_op; cbn; congruence | exact Hq | reflexivity].
+      - refine (IH _ _ NRr SGr _ _ _ _ D); cbn [b_query b_opname b_vars];
+          [unfold body_op; cbn; congruence | exact Hq | rewrite SGn; discriminate]. }
+    cbn [orb] in Hq, Hn.
+    destruct (key_is k_variables k) eqn:Kv.
+    { rewrite <- Eq2. destruct (set_map (b_vars b1) v) as [m|]; [|discriminate].
+      refine (IH _ _ NRr SGr _ _ _ _ D); cbn [b_query b_opname b_vars];
+        [unfold body_op; cbn; congruence | exact Hq | exact Hn]. }
+    cbn [andb]. rewrite NRv.
+    destruct (key_is k_extensions k).
+    { cbn [andb] in D. destruct (set_map (b_ext b1) v) as [m|]; [|discriminate].
+      refine (IH _ _ NRr SGr _ _ _ _ D); cbn [b_query b_opname b_vars];
+        [unfold body_op; cbn; congruence | exact Hq | exact Hn]. }
+    cbn [andb] in D. refine (IH _ _ NRr SGr _ _ _ _ D); [unfold body_op; congruence | exact Hq | exact Hn].
+Qed.
+
+Theorem std_jsoniter_agree kvs b :
+  has_range (JObj kvs) = false -> single_string_members kvs = true ->
+  decode_struct StdJson true (JObj kvs) = Some b ->
+  exists b', decode_struct Jsoniter false (JObj kvs) = Some b' /\ body_op b = body_op b'.
+Proof.
+  intros NR SG D. cbn [decode_struct] in *.
+  eapply (df_std_jsi kvs zero_body zero_body); try eassumption; try reflexivity.
+  rewrite has_range_obj in NR. rewrite forallb_forall. intros kv Hin.
+  apply negb_true_iff. destruct (has_range (snd kv)) eqn:E; [|reflexivity].
+  assert (X : existsb (fun p => has_range (snd p)) kvs = true) by (apply existsb_exists; eauto). congruence.
+Qed.
+
+(** on the wire: the same JSON text as POST application/json body (no ?query=) and as start /
+    subscribe payload is read as the same operation *)
+Theorem post_body_and_ws_payload_agree parse_std parse_jsi text kvs p id o x :
+  parse_std text = PTree (JObj kvs) -> parse_jsi text = PTree (JObj kvs) ->
+  has_range (JObj kvs) = false -> single_string_members kvs = true ->
+  decode fixed parse_std parse_jsi (WHttp {| e_method := m_post; e_media := mt_json; e_url := []; e_body := text |}) = Some (o, x) ->
+  decode fixed parse_std parse_jsi (WWs p {| f_type := start_type p; f_id := id; f_payload := Some text |}) = Some (o, None).
+Proof.
+  intros Ps Pj NR SG. cbn [decode]. unfold new_request_from_http. cbn [e_method e_media e_url e_body].
+  change (bytes_eqb m_post m_get) with false. change (bytes_eqb m_post m_post) with true.
+  change (bytes_eqb mt_json mt_json) with true. cbn match.
+  unfold decode_post_body. rewrite Ps.
+  destruct (decode_struct StdJson true (JObj kvs)) as [b|] eqn:D; [|discriminate].
+  destruct (std_jsoniter_agree kvs b NR SG D) as (b' & D' & EQ).
+  intros [= <- <-]. unfold handle_message. cbn [f_type f_id f_payload]. rewrite bytes_eqb_refl. cbn [negb].
+  unfold decode_payload. rewrite Pj, D'. unfold body_op in EQ. injection EQ as E1 E2 E3.
+  cbn [url_get q_overwrite fixed orb]. unfold op_of_request. cbn [r_query r_vars r_opname].
+  rewrite <- E1, <- E2, <- E3. f_equal. f_equal.
+  destruct (b_query b); reflexivity.
+Qed.
